@@ -11,7 +11,8 @@ COQ_IMPORTS = ['Base.Str', 'Base.Value', 'Base.Regex', 'Base.Selector']
 RULE = ('cases = (a) ResourceMatcher unit cases and (b) every selector-taking processor x selector form '
         '(None / regex from a generated AST / list / integer incl. negative and out of range) x packages of 1-4 '
         'resources whose names are prefixes of one another or contain regex metacharacters; non-trivial = the '
-        'selector selects a proper, non-empty subset or is rejected; distinct = distinct case digest')
+        'selector selects a proper, non-empty subset or is rejected; distinct = distinct case digest'
+        '; round 4: every resource carries its own values; systematic non-adjacent selections for every selector-taking step')
 TRUSTED = ['Coq 8.16.1 kernel + vm_compute', 'harness/p10.py printers (regex AST -> pattern text) and oracle',
            'Python re.fullmatch as the meaning of "fully matches" for the direct oracle; the Coq matcher is compared with it on every generated pattern',
            'gen_consts.py extraction of ResourceMatcher call-site arguments (ast)']
